@@ -89,7 +89,8 @@ def run(c):
     c.assumptions = ASSUME
     build.cargo_build("agent")
     r1 = c.tlc("KeySecret", "KeySecret_redacted.cfg", workers=2, timeout=120,
-               required_actions=["AcquireOk", "AcquireNonHex", "AcquireMalformed", "FetchLocal", "PublishStatus", "ProvisionQuery", "ProxySign"])
+               required_actions=["AcquireOk", "AcquireNonHex", "AcquireMalformed", "FetchLocal", "PublishStatus", "ProvisionQuery", "ProxySign",
+                                 "UndeliveredReply"])
     if r1.violated:
         raise tlcmod.TlcError("KeySecret.tla (redacted design) violates %s" % r1.invariant_violated)
     r2 = c.tlc("KeySecret", "KeySecret_asfound.cfg", workers=2, timeout=120, expect_ok=False)
@@ -103,7 +104,7 @@ def run(c):
              plan("POST /secure-channel/key/*", 200, ""),
              {"op": "start_key_keeper", "interval_ms": 40}, {"op": "start_event_reader", "interval_ms": 120}, {"op": "sleep", "ms": 600},
              plan("GET /secure-channel/status", 200, status_doc(G[0])), {"op": "sleep", "ms": 200},
-             {"op": "key_state", "tag": "latched"}] + traffic("t1") + [{"op": "mark", "tag": "phase:latch"}]
+             {"op": "key_state", "tag": "latched"}] + traffic("t1") + [{"op": "cancel_key_calls", "n": 25}, {"op": "mark", "tag": "phase:latch"}]
     # rotation to a key the guest does not hold
     steps += [plan("POST /secure-channel/key", 200, key_doc(G[1], CAN["ok2"])),
               plan("GET /secure-channel/status", 200, status_doc(G[1])), {"op": "sleep", "ms": 500},
@@ -139,6 +140,10 @@ def run(c):
     ev, d, _ = rig.run_rig({"steps": steps, "status_task": {"interval_ms": 50, "dir": status_dir}, "event_logger": True, "drain_ms": 400},
                            name, timeout=300, keep_output=True,
                            strace="mkdir,mkdirat,chmod,fchmod,fchmodat,chown,fchown,fchownat,openat,creat,rename,renameat,renameat2")
+    kc = next((e for e in ev if e["e"] == "KeyCallsCancelled"), {})
+    c.extra["key_calls_dropped_before_reply"] = kc.get("dropped", 0)
+    if kc.get("dropped", 0) < 20:
+        raise util.ToolError("cancel_key_calls: only %s calls were dropped before the actor replied (vacuous)" % kc.get("dropped"))
     ks = {e.get("tag"): e for e in ev if e["e"] == "KeyState"}
     c.extra["key_states"] = {k: v.get("guid") for k, v in ks.items()}
     if not ks.get("latched", {}).get("guid"):
